@@ -28,7 +28,9 @@ SeedMat == {<< <<R(1), R(2), R(0)>>, <<R(0), R(1), R(-1)>>, <<R(2), R(0), R(1)>>
             << <<R(0), R(1), R(0)>>, <<R(-1), R(0), R(0)>>, <<R(0), R(0), R(1)>> >>}
 SeedQuat == {<<<<1, 2>>, <<1, 2>>, <<1, 2>>, <<-1, 2>>>>, <<R(1), R(2), R(-1), R(0)>>, <<<<2, 3>>, <<-1, 3>>, R(0), <<2, 3>>>>}
 SeedScal == {R(2), <<-1, 2>>, R(3), <<1, 3>>}
+SeedPt == {<<R(0), R(1), R(-1)>>, <<R(2), <<-1, 2>>, R(3)>>, <<<<1, 3>>, R(-2), R(1)>>}
 SeedVals == {V("Vec", x) : x \in SeedVec} \cup {V("Mat", x) : x \in SeedMat} \cup {V("Quat", x) : x \in SeedQuat} \cup {V("S", <<x>>) : x \in SeedScal}
+            \cup {V("Pt", x) : x \in SeedPt}
 
 \* ---- the operator table of the machine: name, argument tags, the operand forms that exist
 F4A == {"vv", "rv", "vr", "rr", "as"}
@@ -45,7 +47,17 @@ OpTable == {
   <<"conjugate", <<"Quat">>, {"m"}>>, <<"mat3_from_quat", <<"Quat">>, {"m"}>>, <<"lerp", <<"Vec", "Vec", "S">>, {"m"}>>,
   <<"add_ew", <<"Vec", "Vec">>, {"m", "as"}>>, <<"mul_ew", <<"Vec", "Vec">>, {"m", "as"}>>, <<"sub_ew", <<"Vec", "S">>, {"m", "as"}>>,
   <<"diagonal", <<"Mat">>, {"m"}>>, <<"trace", <<"Mat">>, {"m"}>>, <<"mag2", <<"Vec">>, {"m"}>>, <<"det", <<"Mat">>, {"m"}>>,
-  <<"iter_sum3", <<"Vec", "Vec", "Vec">>, {"v", "r"}>> }
+  <<"iter_sum3", <<"Vec", "Vec", "Vec">>, {"v", "r"}>>,
+  \* points: an affine space over the vectors                                                            (C12)
+  <<"add", <<"Pt", "Vec">>, F4A>>, <<"sub", <<"Pt", "Vec">>, F4A>>, <<"sub", <<"Pt", "Pt">>, F4>>, <<"mul_s", <<"Pt", "S">>, F2A>>,
+  <<"to_vec", <<"Pt">>, {"m"}>>, <<"from_vec", <<"Vec">>, {"m"}>>, <<"midpoint", <<"Pt", "Pt">>, {"m"}>>, <<"dot", <<"Pt", "Vec">>, {"m"}>>,
+  <<"distance2", <<"Pt", "Pt">>, {"m"}>>, <<"add_ew", <<"Pt", "Pt">>, {"m", "as"}>>,
+  \* a 3x3 matrix acting as a transform of points and vectors; rotation of a point by a quaternion           (C01, C08, C05)
+  <<"transform_point", <<"Mat", "Pt">>, {"m"}>>, <<"transform_vector", <<"Mat", "Vec">>, {"m"}>>, <<"rotate_point", <<"Quat", "Pt">>, {"m"}>>,
+  <<"rotate_vector", <<"Quat", "Vec">>, {"m"}>>,
+  \* more of the matrix and quaternion algebra
+  <<"mul_s", <<"Mat", "S">>, F2A>>, <<"neg", <<"Vec">>, {"v"}>>, <<"dot", <<"Quat", "Quat">>, {"m"}>>, <<"mag2", <<"Quat">>, {"m"}>>,
+  <<"sum", <<"Vec">>, {"m"}>>, <<"product", <<"Vec">>, {"m"}>>, <<"distance2", <<"Vec", "Vec">>, {"m"}>>, <<"sub_ew", <<"Vec", "Vec">>, {"m", "as"}>> }
 
 \* ---- magnitudes
 RECURSIVE MaxOf(_)
@@ -80,7 +92,7 @@ Spec == Init /\ [][Next]_vars
 
 \* ---- invariants of the machine
 WellFormedScalar(q) == IsRat(q) /\ Gcd(Abs(q[1]), q[2]) = 1
-TypeOK == \A i \in RegId : reg[i] = Nil \/ (reg[i].t \in {"Vec", "Quat", "S"} /\ \A j \in 1..Len(reg[i].c) : WellFormedScalar(reg[i].c[j]))
+TypeOK == \A i \in RegId : reg[i] = Nil \/ (reg[i].t \in {"Vec", "Quat", "S", "Pt"} /\ \A j \in 1..Len(reg[i].c) : WellFormedScalar(reg[i].c[j]))
                                        \/ (reg[i].t = "Mat" /\ \A c \in 1..3 : \A r \in 1..3 : WellFormedScalar(reg[i].c[c][r]))
 \* C17 on the machine: the value stored by the last call satisfies the contract under EVERY spelling of the operator
 AllForms == {"vv", "rv", "vr", "rr", "as", "m", "v", "r", "free"}
